@@ -105,7 +105,7 @@ prop('C10', SERVER_TOO, NATIVE_SERVER, title='Shutdown is orderly: queued work i
      level_note='That dropping the dispatch future fails the remaining callers is Rust drop glue + A-oneshot.',
      not_covered='server side (unit server)')
 prop('C11', SERVER_TOO, NATIVE_SERVER, title='Tracked request state is bounded and fully reclaimed',
-     verus=['client', 'cancellations', 'util_compact'], native=['client_wire_bounded'],
+     verus=['client', 'cancellations', 'util_compact'], native=['client_wire_bounded', 'deadlines_bounded'],
      technique='Verus: representation invariant (timers<->entries bijection) + whole-view postconditions on the real table functions, extracted from /repo each run',
      level_text='Deductive proof, for all table states and all ids, that every public operation of the real in-flight tables preserves the timers<->entries bijection and changes the abstract view exactly as specified; the history quantifier is discharged by the invariant (every call sequence is a sequence of contracted calls).',
      level_note='Proof is about the extracted text (rules logged per run) against trusted models of HashMap/DelayQueue/oneshot.',
@@ -127,7 +127,7 @@ prop('C14', SERVER_TOO, NATIVE_SERVER, title="tarpc honours the pluggable transp
      level_note='Server channel and throttler call sites are in unit server when registered.',
      not_covered='server-side call sites until unit server is registered')
 prop('C16', SERVER_TOO, title='No peer-supplied input can crash an endpoint',
-     verus=['client'], native=['server_wire_bounded', 'client_routing_bounded'], kani=['k2_deadline_decode_total_and_shifted', 'k3_time_until_is_saturating_difference', 'k3_max_timer_delay_value', 'k3_deadline_field_always_renderable', 'k1_errorkind_read_total_and_table'],
+     verus=['client'], native=['server_wire_bounded', 'client_routing_bounded', 'deadlines_bounded'], kani=['k2_deadline_decode_total_and_shifted', 'k3_time_until_is_saturating_difference', 'k3_max_timer_delay_value', 'k3_deadline_field_always_renderable', 'k1_errorkind_read_total_and_table'],
      technique=TECH_V + '; ' + TECH_K,
      assumptions=COMMON_V + ['A-delayqueue', 'A-clock', 'A-codec'],
      level_text='Panic freedom as proof obligations: DelayQueue::insert/remove preconditions (range, key present) discharged at every call site from the table invariant and the clamp; unknown ids change nothing; decoding any deadline duration or error code is total (CBMC, full domain).',
@@ -164,12 +164,12 @@ prop('C12', NATIVE_SERVER, title='Per-channel request limit throttles exactly th
      level_note='Known finding F7: the last clause fails on the real code (limit tested before the inner read).')
 
 prop('C19', title='Request hooks run in order and short-circuit correctly',
-     kani=['k4_hook_then_serve', 'k4_serve_then_hook', 'k4_before_and_after', 'k4_chain_api_order_and_short_circuit', 'k4_empty_chain_is_identity', 'k4_after_wraps_inner_before_error', 'k4_cons_first_then_rest_any_rest', 'k4_cons_then_appends_at_end_any_rest', 'k4_chain_of_three_order'],
+     kani=['k4_hook_then_serve', 'k4_serve_then_hook', 'k4_before_and_after', 'k4_chain_api_order_and_short_circuit', 'k4_then_fn_chains_closures_like_then', 'k4_empty_chain_is_identity', 'k4_after_wraps_inner_before_error', 'k4_cons_first_then_rest_any_rest', 'k4_cons_then_appends_at_end_any_rest', 'k4_chain_of_three_order'],
      technique=TECH_K + '; generic code instantiated with nondeterministic hooks/handlers (symbolic pass/fail, context and result mutation, event recorder); list length by structural induction (Cons with arbitrary Rest)',
      assumptions=['A-verifiers'],
      level_text='CBMC proof on the real generic combinators with fully nondeterministic hook and handler behaviour: order, context threading, short-circuit, exactly-once after-hook (also on inner errors), result pass-through and rewrite; BeforeRequestCons is proved against an arbitrary rest (induction step) and Nil as base, so every chain length is covered.',
      level_note='The one-poll executor makes a suspending hook out of scope (hooks whose futures return Pending are resumed by the same state machine; not modelled). Unwinding assertions are on.',
-     not_covered='hooks that suspend; `then_fn` closure adaptor (forwards to then)')
+     not_covered='hooks that suspend')
 prop('C20', title='Load-balancing and retry stubs keep their dispatch promises',
      verus=['lb_fairness'],
      kani=['k5_cycle_next_is_counter_mod_len', 'k5_cycle_next_upto8', 'k5_round_robin_call_uses_next', 'k5_consistent_hash_valid_and_stable', 'k5_serve_as_stub_passes_through', 'k5_retry_attempts_numbered_and_last_result'],
